@@ -1,1 +1,73 @@
-import Tftp.Model.Net
+import Tftp.Model.Client
+import Tftp.Props.C04
+/-!
+# C14 — Bundled client and server interoperate byte-exactly for every option choice
+
+The transfer itself is the closed loop of `Model/Net.lean` (the client's worker *is* the same
+`Worker::send` / `Worker::receive` code as the server's): see C04 for what is proved about it and what is
+enumerated against the real workers. Here: the client-side glue.
+Partial by nature: kernel socket buffers and real timers (a burst larger than the socket buffer is
+recovered by the re-acknowledgement of C04, at the price of time-outs).
+-/
+namespace Tftp
+
+/-- the client always sends the four options, in the order blksize, windowsize, timeout, tsize; a read
+request names the path as given, a write request names the basename -/
+theorem c14_client_request (c : ClientCfg) (size : Nat) :
+    (c.upload = false → clientRequest c size = some (.rrq c.filePath octet
+      [{ option := .blksize, value := c.blocksize }, { option := .windowsize, value := c.windowsize },
+       { option := .timeout, value := c.timeoutS }, { option := .tsize, value := 0 }])) ∧
+    (c.upload = true → ∀ n, fileName c.filePath = some n → clientRequest c size = some (.wrq n octet
+      [{ option := .blksize, value := c.blocksize }, { option := .windowsize, value := c.windowsize },
+       { option := .timeout, value := c.timeoutS }, { option := .tsize, value := size }])) := by
+  unfold clientRequest
+  constructor
+  · intro h; simp [h]
+  · intro h n hn; simp [h, hn]
+
+/-- the server acknowledges the client's options unchanged when they are valid (C09), and the client adopts
+exactly what the OACK says: both ends run the transfer with the same block length and window -/
+theorem c14_client_adopts_oack (c : ClientCfg) (b w : Nat) (hw : w < 65536) (rest : List TransferOption)
+    (hrest : ∀ o ∈ rest, o.option ≠ .blksize ∧ o.option ≠ .windowsize) :
+    (verifyOack c ({ option := .blksize, value := b } :: { option := .windowsize, value := w } :: rest)).blocksize = b ∧
+    (verifyOack c ({ option := .blksize, value := b } :: { option := .windowsize, value := w } :: rest)).windowsize = w := by
+  have key : ∀ (rest : List TransferOption) (c : ClientCfg), (∀ o ∈ rest, o.option ≠ .blksize ∧ o.option ≠ .windowsize) →
+      (verifyOack c rest).blocksize = c.blocksize ∧ (verifyOack c rest).windowsize = c.windowsize := by
+    intro rest
+    induction rest with
+    | nil => intro c _; simp [verifyOack]
+    | cons o os ih =>
+      intro c h
+      have ho := h o (by simp)
+      have hos : ∀ x ∈ os, x.option ≠ .blksize ∧ x.option ≠ .windowsize := fun x hx => h x (by simp [hx])
+      unfold verifyOack
+      cases hopt : o.option with
+      | blksize => exact absurd hopt ho.1
+      | windowsize => exact absurd hopt ho.2
+      | tsize => simp only; exact ih c hos
+      | timeout => simp only; exact ih c hos
+  simp only [verifyOack]
+  have := key rest { c with blocksize := b, windowsize := w % 65536 } hrest
+  simp only at this
+  rw [this.1, this.2, Nat.mod_eq_of_lt hw]
+  exact ⟨rfl, rfl⟩
+
+/-- a download is stored as `<receive-directory>/<basename of the requested path>` -/
+theorem c14_download_target (c : ClientCfg) (n : Bytes) (h : fileName c.filePath = some n) :
+    downloadTarget c = some (joinPath c.recvDir n) := by
+  simp [downloadTarget, h]
+
+/-- when the server refuses the request with an ERROR (or answers with anything that is not an
+OACK/ACK) the client starts no worker and therefore creates no file -/
+theorem c14_refusal_creates_nothing (c : ClientCfg) (code : ErrorCode) (msg : Bytes) :
+    clientOnReply c (.error code msg) = .fail := rfl
+
+/-- an upload acknowledged with a plain ACK falls back to the RFC 1350 defaults on the client side too -/
+theorem c14_upload_plain_ack_defaults (c : ClientCfg) (h : c.upload = true) (n : Nat) :
+    clientOnReply c (.ack n) = .transfer { c with blocksize := 512, windowsize := 1, timeoutS := 5 } false := by
+  simp [clientOnReply, h, Gen.clientDefaultBlocksize, Gen.clientDefaultWindowsize, Gen.clientDefaultTimeoutS]
+
+/-! non-vacuity -/
+example : fileName [115, 117, 98, 47, 102, 46, 98] = some [102, 46, 98] := by decide   -- "sub/f.b" -> "f.b"
+
+end Tftp
